@@ -120,6 +120,7 @@ type dict interface {
 	GoRoundtrip(kt string, entries []string) string
 	GoSpec(kt string, table string, entries []string) string
 	GoDecPut(kt string, table string, entries []string) string
+	GoReencode(table string) string
 }
 
 type runner[K keyC, V any] struct {
@@ -367,6 +368,7 @@ func init() {
 		"go.hm.spec_wc32": func(a []string) string { return dictOf(a).GoSpec(a[0], a[2], a[3:]) },
 		"go.hm.real":      func(a []string) string { return dictOf(a).GoSpec(a[0], a[2], a[3:]) },
 		"go.hm.decput":    func(a []string) string { return dictOf(a).GoDecPut(a[0], a[2], a[3:]) },
+		"go.hm.reencode":  func(a []string) string { return dictOf(a).GoReencode(a[2]) },
 	})})
 }
 
@@ -764,6 +766,30 @@ func (r runner[K, V]) GoSpec(kt string, table string, entries []string) string {
 	return "ok"
 }
 
+// GoReencode: Unmarshal a dictionary written by TON itself (found in chain data) and Marshal it again: the cell hash
+// must be the same, i.e. tongo picks the label form TON picks (the shortest one).
+func (r runner[K, V]) GoReencode(table string) string {
+	src := cellOfTable(table)
+	want, err := src.HashString()
+	if err != nil {
+		return "FAIL hash " + err.Error()
+	}
+	src.ResetCounters()
+	var d tlb.HashmapE[K, V]
+	if err := tlb.Unmarshal(src, &d); err != nil {
+		return "FAIL unmarshal " + err.Error()
+	}
+	c, err := r.marshal(d)
+	if err != nil {
+		return "FAIL marshal " + err.Error()
+	}
+	got, _ := c.HashString()
+	if got != want {
+		return "FAIL non-canonical got=" + clip(canonTable(c)) + " want=" + clip(table)
+	}
+	return "ok"
+}
+
 // GoDecPut: Unmarshal a valid tree, Put the given entries, Marshal, Unmarshal: the result lists the updated map.
 func (r runner[K, V]) GoDecPut(kt string, table string, entries []string) string {
 	d, err := r.unmarshal(table)
@@ -971,6 +997,22 @@ func (s *labelStats) count(form, l int) {
 	s.g.Count("label_" + name + "_len_" + bucket)
 }
 
+// canonicalForm is TON's choice (crypto/vm/dict.cpp append_dict_label): the shortest form; hml_short wins a tie
+// with hml_long, and both win a tie with hml_same.
+func canonicalForm(label string, m int) int {
+	n, k := len(label), bitLen(m)
+	switch {
+	case n > 1 && k < 2*n-1 && allSame(label):
+		return 2
+	case k < n:
+		return 1
+	default:
+		return 0
+	}
+}
+
+func canonicalForms(label string, m int, room int) int { return canonicalForm(label, m) }
+
 func randomForms(g *h.G) formChooser {
 	return func(label string, m int, room int) int {
 		var ok []int
@@ -1001,7 +1043,7 @@ func hashmapE(root *node) *node {
 // ------------------------------------------------------------------------------------------------ independent strict parser (real dictionaries)
 
 // specParse reads `Hashmap m X` strictly by the TL-B definition: returns the entries (key bits, payload) or false.
-func specParse(n *node, m int, prefix string, out *[]specEntry, budget *int) bool {
+func specParse(n *node, m int, prefix string, out *[]specEntry, budget *int, canon *bool) bool {
 	*budget--
 	if *budget < 0 || n.ty != 0 {
 		return false
@@ -1009,6 +1051,7 @@ func specParse(n *node, m int, prefix string, out *[]specEntry, budget *int) boo
 	b := n.bits
 	var l int
 	var label string
+	form := 0
 	switch {
 	case len(b) >= 1 && b[0] == '0':
 		i := 1
@@ -1024,6 +1067,7 @@ func specParse(n *node, m int, prefix string, out *[]specEntry, budget *int) boo
 		}
 		label, b = b[i+1:i+1+l], b[i+1+l:]
 	case len(b) >= 2 && b[:2] == "10":
+		form = 1
 		w := bitLen(m)
 		if len(b) < 2+w {
 			return false
@@ -1035,6 +1079,7 @@ func specParse(n *node, m int, prefix string, out *[]specEntry, budget *int) boo
 		}
 		label, b = b[2+w:2+w+l], b[2+w+l:]
 	case len(b) >= 3 && b[:2] == "11":
+		form = 2
 		w := bitLen(m)
 		if len(b) < 3+w {
 			return false
@@ -1048,6 +1093,9 @@ func specParse(n *node, m int, prefix string, out *[]specEntry, budget *int) boo
 	default:
 		return false
 	}
+	if canon != nil && form != canonicalForm(label, m) {
+		*canon = false
+	}
 	if l == m {
 		*out = append(*out, specEntry{key: prefix + label, val: &node{bits: b, refs: n.refs}})
 		return true
@@ -1055,8 +1103,8 @@ func specParse(n *node, m int, prefix string, out *[]specEntry, budget *int) boo
 	if len(b) != 0 || len(n.refs) != 2 {
 		return false
 	}
-	return specParse(n.refs[0], m-l-1, prefix+label+"0", out, budget) &&
-		specParse(n.refs[1], m-l-1, prefix+label+"1", out, budget)
+	return specParse(n.refs[0], m-l-1, prefix+label+"0", out, budget, canon) &&
+		specParse(n.refs[1], m-l-1, prefix+label+"1", out, budget, canon)
 }
 
 func nodeOfCell(c *boc.Cell, memo map[*boc.Cell]*node) *node {
@@ -1101,6 +1149,7 @@ func hasExotic(n *node, memo map[*node]bool) bool {
 }
 
 type realDict struct {
+	canon   bool // every label in TON's canonical (shortest) form under this key width
 	kt      string
 	root    *node
 	entries []specEntry
@@ -1172,14 +1221,26 @@ func findRealDicts(repo string) []realDict {
 			if inside[n] || len(n.refs) != 2 || hasExotic(n, exo) || unfoldedSize(n, sizes) > 6000 {
 				continue
 			}
+			// a tree may parse under several key widths: prefer the width under which it is canonical (that is how TON
+			// wrote it); a tree that is canonical under no width is still a valid dictionary to decode
+			var best *realDict
 			for _, wt := range realWidthTypes {
 				var es []specEntry
 				budget := 4000
-				if specParse(n, wt.n, "", &es, &budget) && len(es) >= 2 && len(es) <= 400 {
-					out = append(out, realDict{kt: wt.kt, root: n, entries: es, src: filepath.Base(filepath.Dir(f)) + "/" + filepath.Base(f)})
-					mark(n)
-					break
+				canon := true
+				if specParse(n, wt.n, "", &es, &budget, &canon) && len(es) >= 2 && len(es) <= 400 {
+					d := realDict{canon: canon, kt: wt.kt, root: n, entries: es, src: filepath.Base(filepath.Dir(f)) + "/" + filepath.Base(f)}
+					if best == nil || (canon && !best.canon) {
+						best = &d
+					}
+					if canon {
+						break
+					}
 				}
+			}
+			if best != nil {
+				out = append(out, *best)
+				mark(n)
 			}
 		}
 	}
@@ -1502,6 +1563,9 @@ func genOneMap(g *h.G) {
 		root = specTree(spec, n, randomForms(g), &labelStats{g})
 	}
 	table := tableOf(hashmapE(root))
+	if len(spec) > 0 { // the same mapping written canonically by the independent encoder: tongo must re-encode it bit-exactly
+		g.Emit("go.hm.reencode", kt, vt, tableOf(hashmapE(specTree(spec, n, canonicalForms, nil))))
+	}
 	g.Emit("hm.decode", kt, vt, table)
 	if g.Rng.Intn(4) == 0 { // the bare Hashmap (no Maybe ^ wrapper): same tree at the root, same entries by Put
 		bare := &node{}
@@ -1760,6 +1824,12 @@ func genReal(g *h.G) {
 		g.NonTrivial("real/" + d.src + "/" + d.entries[0].key)
 		g.Emit("hm.decode", d.kt, "P", table)
 		g.Emit("go.hm.real", append([]string{d.kt, "P", table}, entries...)...)
+		if d.canon {
+			g.Count("real_canonical")
+			g.Emit("go.hm.reencode", d.kt, "P", table)
+		} else {
+			g.Count("real_noncanonical_under_any_width")
+		}
 	}
 	if len(ds) == 0 {
 		g.Count("real_none_found")
